@@ -40,9 +40,13 @@ CLAIMED.update({
          "Seeded search over (operation sequences with seeded arguments, both framing modes, task count, write perturbation, optional fault). Oracle from the peer's independent reader: the stream is a sequence of whole frames in the negotiated mode; frames and operations that returned Ok are in bijection; each frame carries the protocol's control tuple for the operation and exactly the given payload; per task, frames appear in issue order; operations before the handshake write nothing. Sampling, not proof.",
          "Trusted: tokio, the simulator's independent frame/header/term reader (written from the protocol documents), payload sub-space of DESIGN 2.4.",
          "DESIGN.md section 3, C07"),
+ "C18": ("deterministic simulation: seeded histories of send/send_to_name/register/unregister/whereis/link/unlink/monitor/demonitor/process failure from several tasks on a real Node with instrumented process handlers, yield points at registry and exit-propagation steps; history oracles + linearizability check of the name table against a sequential map; GenServer/GenEvent call/cast/notify dispatch",
+         "Seeded search over operation histories x task interleavings (await points, handler stalls, yield points in the mailbox loop, exit propagation and registry removal). Oracles over the recorded history stamped with one global sequence: exactly-once in-order delivery per (sender, process) with the prefix rule for failed targets; exactly one exit / monitor notice per link / monitor in force at the failure, none after a completed unlink / demonitor, none spurious; terminated identifiers do not resolve; per-name register/unregister/whereis history (with the death of the owner as one removal inside the death interval) is linearizable against a map; behaviours answer each call once to its caller. Sampling, not proof.",
+         "Trusted: tokio (mpsc, RwLock, paused clock); link/unlink on a pair and monitor/demonitor on a (watcher,target) pair are issued by one task so their order is known; single runtime thread per run.",
+         "DESIGN.md section 3, C18"),
 })
 
-PENDING = {k: 'check under construction in this session (simulation applies; see DESIGN.md); not claimed yet' for k in ['C06','C09','C14','C16','C18']}
+PENDING = {k: 'check under construction in this session (simulation applies; see DESIGN.md); not claimed yet' for k in ['C06','C09','C14','C16']}
 
 def main():
     hooks = subprocess.run(["git","-C","/repo","log","--format=%H %s","--grep=^verif hook"],capture_output=True,text=True).stdout.strip().splitlines()
